@@ -10,7 +10,6 @@ package main
 import (
 	"fmt"
 	"go/types"
-	"strings"
 
 	"golang.org/x/tools/go/ssa"
 )
@@ -19,13 +18,10 @@ import (
 
 func ruleIntBase(w *World, r *Report) {
 	const rule = "R-INTBASE"
-	r.Rule(rule, "every strconv integer parse in the lexer/parser (token classification, scalar literal, list element) reads base 10: the three sites agree, and the text Dump prints in base 10 is read back as the same number", 3)
+	r.Rule(rule, "every strconv integer parse of the package (token classification, scalar literal, list element, version component) reads base 10: the sites agree, and the text Dump prints in base 10 is read back as the same number", 3)
 	n := 0
 	for _, fn := range w.SortedFuncs(funcSet(w.Funcs)) {
 		name := w.Name(fn)
-		if !strings.Contains(name, "parser") {
-			continue
-		}
 		EachInstr(fn, func(in ssa.Instruction) {
 			c, ok := in.(*ssa.Call)
 			if !ok {
